@@ -3,13 +3,13 @@ import sys
 
 from props import _cluster
 
-THEOREMS = ['XmlDiffModel.C17_bounds_partial', 'XmlDiffModel.C17_moves_deletes_bounds', 'XmlDiffModel.C17_created_never_deleted', 'XmlDiffModel.C17_attr_phase_only_attr_actions']
-PARTIAL = {'C17_changes / attribute bound': "proved, any size and option set: at most |R| inserts, renames, text and tail updates (every matching); at most 2|R| moves and |L| deletes (every one-to-one matching, C17_moves_deletes_bounds); no node created by the script is deleted by it (C17_created_never_deleted, on the strict replay of the script). NOT proved: the attribute-action bound summed over the document (per node pair only attribute actions on that node are emitted) and every-action-changes-the-document - decided per run by the counting oracle and the change-detecting strict replay of the real script (known finding R1: value-level no-op moves past identical siblings)."}
+THEOREMS = ['XmlDiffModel.C17_bounds_partial', 'XmlDiffModel.C17_moves_deletes_bounds', 'XmlDiffModel.C17_created_never_deleted', 'XmlDiffModel.C17_attribute_actions_bound', 'XmlDiffModel.C17_attr_phase_only_attr_actions']
+PARTIAL = {'C17_changes': "proved, any size and option set: at most |R| inserts, renames, text and tail updates (every matching); at most 2|R| moves and |L| deletes (every one-to-one matching); no more attribute actions than the two documents have non-ignored attributes together (C17_attribute_actions_bound); no node created by the script is deleted by it (C17_created_never_deleted, on the strict replay of the script). NOT proved: every-action-changes-the-document - decided per run by the change-detecting strict replay of the real script, on namespaced pairs with the real patcher (known finding R1: value-level no-op moves past identical siblings)."}
 LEAN_MODULES = ['XmlDiffModel.Props.C17']
 SOURCES = ['diff.Differ.diff', 'diff.Differ.align_children', 'diff.Differ.update_node_attr', 'diff.Differ.update_node_text']
-RULE = 'Differ cluster: counting bounds on the real script against |L|, |R| and attribute counts; strict replay with per-action change detection on the id-tree and on the document value; created nodes never deleted. Non-trivial = script has >= 2 action types or a move.'
+RULE = 'Differ cluster: counting bounds on the real script against |L|, |R| and attribute counts; strict replay with per-action change detection on the id-tree and on the document value; created nodes never deleted; on namespaced documents (stream ns, the two documents may bind one URI to different prefixes) every non-move, non-namespace action of the real script must change the document when applied by the real patcher. Non-trivial = script has >= 2 action types or a move.'
 ASSUMPTIONS = [
     "documents of the namespace-free C01 domain (elements, attributes, text, tails, comments); namespaced documents are exercised by the oracle streams only",
     "similarity values (difflib.SequenceMatcher, sqrt) are an oracle recorded from the real node_ratio for every comparable pair",
 ]
-_cluster.make(sys.modules[__name__], 'C17', {'U5','E2E'}, [('main',3500),('wide',300)], [('main',60000),('simple',20000),('wide',5000)])
+_cluster.make(sys.modules[__name__], 'C17', {'U5','E2E'}, [('main',3500),('wide',300),('ns',800)], [('main',60000),('simple',20000),('wide',5000),('ns',20000)])
